@@ -80,8 +80,13 @@ def strategy(tier):
 
 
 def spawn_sleeper():
-    return subprocess.Popen([sys.executable, "-S", "-c", "import time; time.sleep(600)"],
-                            stdout=subprocess.DEVNULL, stderr=subprocess.DEVNULL)
+    """A child that has finished starting up (so that a tiny resource limit set
+    later cannot kill it in the middle of interpreter initialisation)."""
+    p = subprocess.Popen([sys.executable, "-S", "-c",
+                          "import sys, time; sys.stdout.write('r'); sys.stdout.flush(); time.sleep(600)"],
+                         stdout=subprocess.PIPE, stderr=subprocess.DEVNULL)
+    p.stdout.read(1)
+    return p
 
 
 def snapshot(pid):
@@ -105,16 +110,37 @@ def all_ones_mask(pid_template):
 
 
 def run_live(case):
+    """See _run_live; a violation observed while one of the children has died
+    (a resource limit killed it) is inconclusive, not a violation."""
+    state = {}
+    try:
+        return _run_live(case, state)
+    except Violation:
+        dead = [c for c in state.get("children", []) if c.poll() is not None]
+        if dead or state.get("died"):
+            return Result(["live-child-died-inconclusive"])
+        raise
+    finally:
+        for c in state.get("children", []):
+            if c.poll() is None:
+                c.kill()
+            c.wait()
+            if c.stdout:
+                c.stdout.close()
+
+
+def _run_live(case, state):
     import psutil
 
     known = known_keys("C18")
     strict = bool(case.get("allow_known"))
     target = spawn_sleeper()
     bystander = spawn_sleeper()
+    state["children"] = [target, bystander]
     labels = set()
     nontrivial = set()
     excluded = 0
-    try:
+    if True:
         p = psutil.Process(target.pid)
         by0 = snapshot(bystander.pid)
         me0 = snapshot(os.getpid())
@@ -165,8 +191,8 @@ def run_live(case):
                     res = RL[op[1]]
                     lim = op[2]
                     if op[1] in ("RLIMIT_CPU", "RLIMIT_DATA", "RLIMIT_AS", "RLIMIT_STACK",
-                                 "RLIMIT_RTTIME", "RLIMIT_RSS") and isinstance(lim, tuple) \
-                            and len(lim) == 2 and lim != (INF, INF):
+                                 "RLIMIT_RTTIME", "RLIMIT_RSS") and isinstance(lim, (tuple, list)) \
+                            and len(lim) == 2 and tuple(lim) != (INF, INF):
                         # small values of these would kill the sacrificial child
                         lim = (2**40 + lim[0], INF if lim[1] == INF else 2**41 + lim[1])
                     if lim == "cur":
@@ -193,6 +219,7 @@ def run_live(case):
             except BaseException as e:  # noqa: BLE001
                 exc = e
             if target.poll() is not None or bystander.poll() is not None:
+                state["died"] = True
                 return Result(["live-child-died-inconclusive"])
             after = snapshot(target.pid)
             if kind == "cpu_affinity" and not valid and mixed:
@@ -263,10 +290,6 @@ def run_live(case):
                 raise Violation("bystander-changed", f"{desc}: {by0} -> {snapshot(bystander.pid)}")
         if snapshot(os.getpid()) != me0:
             raise Violation("harness-changed", f"{me0} -> {snapshot(os.getpid())}")
-    finally:
-        for c in (target, bystander):
-            c.kill()
-            c.wait()
     return Result(sorted(labels) or ["live"], nontrivial or None, {"excluded": excluded})
 
 
